@@ -200,6 +200,10 @@ pub enum Point {
     CommitReturned,
     GcReturned,
     MergesWaited,
+    /// the writer is about to be dropped / waited for (from here on no updater thread exists)
+    WriterDropping,
+    /// a (new) writer is ready
+    WriterReady,
     End,
 }
 
@@ -232,6 +236,7 @@ pub fn run_history(
     observer(Point::Created, &index, None, &[]);
     let mut committed: Vec<u64> = vec![];
     let mut pending: Vec<Step> = vec![];
+    let mut content_predictable = true;
     let mut writer = match new_writer(&index, h) {
         Ok(w) => Some(w),
         Err(e) => {
@@ -257,9 +262,11 @@ pub fn run_history(
                 pending.push(step.clone());
             }
             Step::DeleteAll => {
+                // C02 findings F2/F3: content and opstamps after delete_all are not predictable
                 let _ = w.delete_all_documents();
                 pending.clear();
                 committed.clear();
+                content_predictable = false;
             }
             Step::Commit => match w.commit() {
                 Ok(op) => {
@@ -274,7 +281,7 @@ pub fn run_history(
                     let mut ids = committed.clone();
                     ids.sort();
                     if let Some(prev) = out.expected.get(&op) {
-                        if *prev != ids {
+                        if *prev != ids && content_predictable {
                             out.errors.push(format!("two commits with opstamp {op} and different content"));
                         }
                     }
@@ -287,6 +294,15 @@ pub fn run_history(
                 pending.clear();
                 if let Err(e) = w.rollback() {
                     out.errors.push(format!("rollback: {e}"));
+                }
+                // rollback() builds a fresh IndexWriter inside, whose merge policy is the
+                // default one again: re-apply the history's choice
+                if h.merge_policy {
+                    let mut p = LogMergePolicy::default();
+                    p.set_min_num_segments(2);
+                    w.set_merge_policy(Box::new(p));
+                } else {
+                    w.set_merge_policy(Box::new(NoMergePolicy));
                 }
             }
             Step::Merge { wait } => {
@@ -312,6 +328,7 @@ pub fn run_history(
             }
             Step::Reopen { wait } => {
                 pending.clear();
+                observer(Point::WriterDropping, &index, writer.as_ref(), &[]);
                 let old = writer.take().unwrap();
                 if *wait {
                     if let Err(e) = old.wait_merging_threads() {
@@ -327,10 +344,12 @@ pub fn run_history(
                     Ok(w) => writer = Some(w),
                     Err(e) => out.errors.push(format!("writer (reopen): {e}")),
                 }
+                observer(Point::WriterReady, &index, writer.as_ref(), &[]);
             }
         }
     }
     if let Some(w) = writer.take() {
+        observer(Point::WriterDropping, &index, Some(&w), &[]);
         if let Err(e) = w.wait_merging_threads() {
             out.errors.push(format!("wait_merging_threads (end): {e}"));
         }
@@ -605,7 +624,7 @@ fn fail(kind: &'static str, detail: String) -> Outcome {
     Outcome { opstamp: None, fail: Some(Fail { kind, detail, missing: vec![] }) }
 }
 
-fn dump_ids(index: &Index, f: &Fields) -> Result<Vec<u64>, String> {
+pub fn dump_ids(index: &Index, f: &Fields) -> Result<Vec<u64>, String> {
     let reader = index.reader_builder().reload_policy(ReloadPolicy::Manual).try_into().map_err(|e: tantivy::TantivyError| format!("reader: {e}"))?;
     let searcher = reader.searcher();
     let mut ids = vec![];
@@ -841,7 +860,7 @@ fn replay(ctx: &mut Ctx, case: &J) {
     }
 }
 
-fn kind_name(k: u32) -> &'static str {
+pub fn kind_name(k: u32) -> &'static str {
     match k {
         0 => "all-applied",
         1 => "all-unsynced-lost",
